@@ -91,6 +91,9 @@ type Plan struct {
 	FailAt  int    `json:"fail_at,omitempty"`
 	Errno   string `json:"errno,omitempty"`   // ENOSPC | EIO
 	Partial int    `json:"partial,omitempty"` // bytes persisted by a failing write
+	// FailMetaAt: make the j-th non-mutating metadata operation (lstat, stat,
+	// fstat, open for reading; 1-based) fail with EIO.
+	FailMetaAt int `json:"fail_meta_at,omitempty"`
 	// FailAt2: a second, independent failing operation (seeded two-fault runs).
 	FailAt2 int `json:"fail_at2,omitempty"`
 	// ReadFailOff: reading the named file fails with EIO at this byte offset.
@@ -129,6 +132,8 @@ type World struct {
 	TTY     bool // stdout is a terminal
 	nextFd  uintptr
 	Fired   map[string]int // fault kinds that fired
+	// NMeta counts non-mutating metadata operations (lstat, stat, fstat, open).
+	NMeta int
 	// ArmedReads counts reads of the main task while a signal handler listens.
 	ArmedReads int
 	// ArmedMuts lists the mutating operations performed while a handler listened.
@@ -278,6 +283,17 @@ func (w *World) mutate(kind string) (fail error, killAfter bool, mid int) {
 	return
 }
 
+// meta numbers a non-mutating metadata operation; it reports whether the plan
+// makes it fail. The caller holds w.mu.
+func (w *World) meta(kind string) bool {
+	w.NMeta++
+	if w.Plan.FailMetaAt == w.NMeta {
+		w.Fired["metafail-"+kind+"-EIO"]++
+		return true
+	}
+	return false
+}
+
 func (w *World) die() {
 	w.Dead = true
 }
@@ -349,6 +365,10 @@ func stat(op, name string, follow bool) (FileInfo, error) {
 	w := world()
 	w.enter(false)
 	defer w.mu.Unlock()
+	if w.meta(op) {
+		w.log(OpRec{Kind: op, Path: name, Err: "EIO", Task: w.task()})
+		return nil, pathErr(op, name, syscall.EIO)
+	}
 	_, n := w.resolve(name, follow)
 	if n == nil {
 		w.log(OpRec{Kind: op, Path: name, Err: "ENOENT", Task: w.task()})
@@ -376,6 +396,10 @@ func OpenFile(name string, flag int, perm FileMode) (*File, error) {
 	if !mutating || (n != nil && flag&O_EXCL == 0 && flag&O_TRUNC == 0) {
 		// plain open
 		defer w.mu.Unlock()
+		if w.meta("open") {
+			w.log(OpRec{Kind: "open", Path: name, Err: "EIO", Task: w.task()})
+			return nil, pathErr("open", name, syscall.EIO)
+		}
 		if n == nil {
 			w.log(OpRec{Kind: "open", Path: name, Err: "ENOENT", Task: w.task()})
 			return nil, pathErr("open", name, syscall.ENOENT)
@@ -441,6 +465,10 @@ func (f *File) Stat() (FileInfo, error) {
 	}
 	if f.closed {
 		return nil, pathErr("stat", f.name, os.ErrClosed)
+	}
+	if w.meta("fstat") {
+		w.log(OpRec{Kind: "fstat", Path: f.name, Err: "EIO", Task: w.task()})
+		return nil, pathErr("stat", f.name, syscall.EIO)
 	}
 	w.log(OpRec{Kind: "fstat", Path: f.name, Task: w.task()})
 	return fileInfo{name: path.Base(f.name), size: int64(len(f.node.Data)), mode: f.node.Mode}, nil
